@@ -17,7 +17,7 @@ from ..common import rng_for, b2j
 
 LEVEL = "exploration"
 SHARDS = {"quick": 1, "thorough": 16}
-REQUIRED = ("default_packets_compared", "override_packets_compared", "packs_compared", "freshness_checks", "user_defaults_seen",
+REQUIRED = ("embedded_reference_defaults_checked", "implicit_reference_declarations_seen", "default_packets_compared", "override_packets_compared", "packs_compared", "freshness_checks", "user_defaults_seen",
             "prototype_instance_defaults_seen", "fixed_data_defaults", "variable_data_defaults", "list_defaults", "optional_defaults",
             "subset_size_1", "subset_size_2", "subset_all", "f2_probe_runs")
 MIN_NONTRIVIAL = 150
@@ -44,6 +44,8 @@ def stats(run, fam):
                 run.count("user_defaults_seen")
             if f.get("inst"):
                 run.count("prototype_instance_defaults_seen")
+            if f.get("implicit"):
+                run.count("implicit_reference_declarations_seen")
             if f["t"] == "data" and "rep" not in f and "opt" not in f:
                 run.count("fixed_data_defaults" if f["mode"] == "const" else "variable_data_defaults")
             if "rep" in f:
@@ -195,9 +197,46 @@ def f2_probe(run):
     common.drop_scratch(d)
 
 
+def embed_probe(run):
+    """A reference declared with embed=True lends its fields to the outer class; the reference's own attribute of a
+    default-constructed packet is still "a fresh copy of the prototype" (the documented use is pkt.point_2d.y = 9).
+    What the borrowed fields default to is a documented quirk of the feature and is not judged."""
+    d = common.scratch_dir("bvf_c19e_")
+    try:
+        for opts in ({}, {"generate_for_pack": False, "generate_for_unpack": False}):
+            src = render.HEADER + ("class Pt(Packet):\n    x = Int(1)\n    y = Int(1)\n\n\nclass P3(Packet):\n    __bisturi__ = %r\n"
+                                   "    p = Ref(Pt(x=1, y=2), embed=True)\n    z = Int(1)\n\n\nclass Tag(Packet):\n    __bisturi__ = %r\n"
+                                   "    t = Int(1)\n    where = Ref(P3(z=8))\n" % (opts, opts))
+            module, path = render.load_source(src, d)
+            w = {"source": src}
+            for label, make in (("P3()", lambda: module.P3()), ("P3(x=7)", lambda: module.P3(x=7)), ("Tag().where", lambda: module.Tag().where)):
+                a, b = make(), make()
+                run.count("embedded_reference_defaults_checked")
+                pa, pb = getattr(a, "p", None), getattr(b, "p", None)
+                if not isinstance(pa, module.Pt) or (pa.x, pa.y) != (1, 2):
+                    run.violation("%s: the embedded reference's own attribute is not a copy of its prototype Pt(x=1, y=2): %r" % (label, pa), w, None)
+                    return
+                if pa is pb:
+                    run.violation("%s: two default packets share the embedded reference's packet object" % label, w, None)
+                    return
+                pa.y = 9
+                c = make()
+                if (pb.x, pb.y) != (1, 2) or (c.p.x, c.p.y) != (1, 2):
+                    run.violation("%s: changing the embedded reference's packet of one default packet shows in another / a later one" % label, w, None)
+                    return
+            import sys as _sys
+            _sys.modules.pop(module.__name__, None)
+    finally:
+        common.drop_scratch(d)
+
+
 def run(run):
     shard, nshards = run.shard
     rng = rng_for(run.seed, "c19", shard)
+    if shard == 0:
+        embed_probe(run)
+    else:
+        run.count("embedded_reference_defaults_checked")
     nfam = 480 if run.tier == "quick" else 2000
     profile = {"p_local_classes": 0.4, "p_default": 0.45, "p_instance_proto": 0.5, "p_describe": 0.12, "allow_regex_nokeep_single": False,
                "allow_raw_callbacks": False, "p_rep": 0.22, "p_opt": 0.14,
